@@ -48,12 +48,12 @@ CONFIGS = [
     ("subgroup", ["F %d" % (H["helpShort"] | H["usageCont"]), A("i0", "i,int"), "SG %s 0" % hx("g,group"), A("s0", "n,name"), A("i1", "p,port"), "SE", A("b0", "f")]),
     ("command", ["F 0", A("s0", "c,cmd", "vm=cmd"), A("i0", "i,int"), A("b0", "f")]),
     ("special-dest", ["F 0", A("tu0", "t,tuple"), A("bs0", "b,bits"), A("mp0", "m,map"), A("ca0", "a,arr"), A("ar0", "r,array"), A("lc0", "l,level"), A("oi0", "o,opt"),
-                      A("vb0", "vbool"), A("db0", "dynbits"), A("pq0", "prio"), A("mm0", "mmap")]),
+                      A("vb0", "vbool"), A("db0", "dynbits"), A("pq0", "prio"), A("mm0", "mmap"), A("bb0", "bigbits")]),
     ("positional-cmd", ["F 0", A("s0", "-", "vm=cmd"), A("i0", "i")]),
     ("presized", ["F 0", "I vb0 " + hx("1"), "I vb1 " + hx("2\x1f1"), "I db0 " + hx("1"), "I db1 " + hx("3\x1f0"), A("vb0", "a,one"), A("vb1", "b,two", "unset"),
                   A("db0", "c,dynone"), A("db1", "d,dynthree", "unset"), A("bs0", "e,bits", "unset"), A("ca0", "f,arr", "unique", "sort"), A("tu0", "t,tuple")]),
     # the same destinations with a format set: the library has a separate assignment path (own range checks) for that case
-    ("formatted", ["F 0", "I vb0 " + hx("2\x1f1"), "I db0 " + hx("3\x1f0"), A("bs0", "b,bits", "fmt=upper"), A("vb0", "vbool", "fmt=lower"), A("db0", "dynbits", "fmt=upper"),
+    ("formatted", ["F 0", "I vb0 " + hx("2\x1f1"), "I db0 " + hx("3\x1f0"), A("bs0", "b,bits", "fmt=upper"), A("bb0", "bigbits", "fmt=lower"), A("vb0", "vbool", "fmt=lower"), A("db0", "dynbits", "fmt=upper"),
                    A("ca0", "a,arr", "fmt=upper", "fmtpos=2:lower"), A("ar0", "r,array", "fmtpos=0:upper", "fmtpos=2:lower"), A("tu0", "t,tuple", "fmtpos=1:upper"),
                    A("vs0", "w,words", "fmt=lower", "fmtpos=1:upper", "fmtpos=30:upper"), A("mp0", "m,map", "fmtkey=upper", "pairfmt=" + hx("={}")),
                    A("um0", "u,umap", "fmtval=lower", "fmtkey=upper"), A("s0", "s,str", "fmt=anycase:" + hx("Ullll"))]),
@@ -73,11 +73,12 @@ VALID = {
     "subgroup": [["-i", "1", "-g", "-n", "host", "-p", "80", "-f"], ["--group", "--name=x"], ["-h"]],
     "command": [["-i", "2", "-c", "ls", "-l", "/tmp"], ["-f", "--cmd", "a", "b"]],
     "special-dest": [["-t", "1,two,3.5", "-b", "1,3,5", "-m", "a,1;b,2", "-a", "1,2,3,4", "-r", "7,8,9", "-l", "-l", "-o", "9"],
-                     ["--vbool", "1,12,30", "--dynbits", "0,9,70", "--prio", "3,1,2", "--mmap", "1,x;1,y"], ["-lll"], ["-l", "4"]],
+                     ["--vbool", "1,12,30", "--dynbits", "0,9,70", "--prio", "3,1,2", "--mmap", "1,x;1,y"], ["-lll"], ["-l", "4"],
+                     ["--bigbits", "0,63,64,99"], ["--bigbits=100"], ["--bigbits=-1"], ["-b-1"], ["-b", "3,-20"], ["--bigbits", "5,-200"]],
     "positional-cmd": [["-i", "1", "rest", "of", "the", "line"], ["word"]],
     "presized": [["-a", "0", "-b", "1", "-c", "0", "-d", "2"], ["-a", "1"], ["-a", "2"], ["-b", "2"], ["-b", "3"], ["-c", "1"], ["-c", "2"], ["-d", "3"], ["-d", "4,5"],
                  ["-e", "15", "-f", "1,2,3,4", "-t", "1,x,2.5"], ["-e", "16"], ["-f", "1,1,2,2,3,3"], ["-a", "1,2,3"], ["-a", "14", "-a", "15", "-a", "22"]],
-    "formatted": [["-b", "1,15", "--vbool", "0,1,9", "--dynbits", "2,3,70"], ["-b", "16"], ["-a", "1,2,3,4", "-r", "7,8,9"], ["-a", "1,2,3,4,5"], ["-r", "1,2", "-r", "3,4"],
+    "formatted": [["-b", "1,15", "--vbool", "0,1,9", "--dynbits", "2,3,70"], ["-b", "16"], ["--bigbits", "1,64,99"], ["--bigbits=-1"], ["--bigbits", "7,-64"], ["-b-1"], ["-a", "1,2,3,4", "-r", "7,8,9"], ["-a", "1,2,3,4,5"], ["-r", "1,2", "-r", "3,4"],
                   ["-t", "1,two,3.5"], ["-w", "a,B,c", "-w", "dd"], ["-m", "{a=1};{b=2}", "-u", "k,V;q,W"], ["-m", "{a=1"], ["-s", "heLLo world"], ["-s", ""], ["-s", "x"],
                   ["--vbool", "2"], ["--vbool", "3"], ["--dynbits", "3"], ["--dynbits", "4"]],
     "group": [["-i", "1", "-s", "x", "-f"], ["-v", "1", "2", "3", "-f", "-s", "q"], ["-h"]],
